@@ -593,7 +593,7 @@ func runCheck(id, tier string, seed int) int {
 	}
 	ev := map[string]any{
 		"property_id": id, "tier": tier, "seed": seed, "level": level, "wall_s": round3(time.Since(t0).Seconds()), "violations": violations,
-		"assumptions": spec.Assumptions,
+		"assumptions": append(append([]string{}, spec.Assumptions...), engineAssumptions...),
 		"coverage": map[string]any{
 			"obligations": total, "discharged": discharged, "checker_cmd": fmt.Sprintf("bin/vcgo check %s --tier %s", id, tier),
 			"trusted_base": spec.Trusted, "explanation": spec.Explanation, "samples": samples,
@@ -620,6 +620,12 @@ func runCheck(id, tier string, seed int) int {
 		return 1
 	}
 	return 0
+}
+
+// engineAssumptions: assumptions of the generator itself, the same for every check.
+var engineAssumptions = []string{
+	"engine: `check overflow` obligations are generated for fixed-width integer types only; platform-sized int/uint counters (range indices, sums of lengths of in-memory objects) are assumed not to wrap",
+	"engine: when a contract identifier, call-site ordinal or loop ordinal no longer resolves on the current tree, it is realigned with the declarations / calls / loops recorded in baseline/bindings.json (renamed variables, moved sites, helpers added later are executed inline); the clause is still proved, each realignment is listed in the function's `abstracted` notes",
 }
 
 func round3(f float64) float64 { return float64(int(f*1000+0.5)) / 1000 }
